@@ -56,9 +56,24 @@ def truncate(text: str, at: int) -> str:
     return text[:at]
 
 
-def corrupt(text: str, rng: random.Random):
+_NUM_CHILD = None
+
+
+def corrupt(text: str, rng: random.Random, force=None):
     """Returns (new_text, op). Operates on one spelled element (no declaration)."""
-    op = rng.choice(["flip", "del_gt", "del_lt", "dup_attr", "unknown_child", "bad_vocab", "del_quote", "del_slash", "insert"])
+    global _NUM_CHILD
+    op = force or rng.choice(["flip", "del_gt", "del_lt", "dup_attr", "unknown_child", "bad_vocab", "del_quote", "del_slash", "insert", "bad_number"])
+    if op == "bad_number":
+        # a number whose text stops being a number at its very end: many digits, then a unit / a second point / a stray character
+        import re
+        if _NUM_CHILD is None:
+            _NUM_CHILD = re.compile(r"(<(?:one|def)Number\b[^>]*[^/>]>)([^<]*)(</)")
+        m = _NUM_CHILD.search(text)
+        if m:
+            bad = rng.choice(["3141592653589793238462643383279502884197169399375105820974944#", "1" * 48 + "e5",
+                              "12345678901234567890123456789012345678901234567890.6.7", "0:" + "9" * 60 + "x", "9" * 40 + " arcsec"])
+            return text[:m.start(2)] + bad + text[m.end(2):], op
+        op = "insert"
     if op == "flip":
         i = rng.randrange(len(text))
         return text[:i] + chr(rng.randrange(256)) + text[i + 1:], op
